@@ -4,12 +4,21 @@ import Mathlib.Tactic.Linarith
 import Mathlib.Algebra.Order.Field.Basic
 import Mathlib.Algebra.BigOperators.Group.List.Basic
 import Mathlib.Data.List.Sort
+import Mathlib.Tactic.FieldSimp
+import Mathlib.Tactic.NormNum
+import Mathlib.Tactic.Positivity
+import Mathlib.Tactic.LinearCombination
 
 /-!
 Helper lemmas for C05 (confusion-matrix counting loop, label set, sums).
 -/
 namespace LinfaSpec.Metrics
 open LinfaSpec
+
+/-- the left fold used for sequential Rust loops is the list sum -/
+theorem sumS_eq_sum {α} [AddCommMonoid α] (l : List α) : sumS l = l.sum := by
+  unfold sumS
+  rw [List.sum_eq_foldl]
 
 /-! ### `modifyAt`, `incr`, `cell` -/
 
@@ -474,5 +483,48 @@ theorem count_four {β} (P Q : β → Prop) [DecidablePred P] [DecidablePred Q] 
     simp only [List.filter_cons, List.length_cons]
     by_cases hP : P x <;> by_cases hQ : Q x <;> simp [hP, hQ] <;> (simp at h1 h2 h3; omega)
 end Labels
+
+
+/-! ### regression helpers -/
+section Field
+variable {α : Type} [Field α] [LinearOrder α] [IsStrictOrderedRing α]
+
+theorem absS_eq_abs (x : α) : absS x = |x| := by
+  unfold absS
+  split
+  · rename_i h; rw [abs_of_neg h]
+  · rename_i h; rw [abs_of_nonneg (not_lt.mp h)]
+
+theorem maxS_eq_max (a b : α) : maxS a b = max a b := by
+  unfold maxS
+  split
+  · rename_i h; rw [max_eq_right (le_of_lt h)]
+  · rename_i h; rw [max_eq_left (not_lt.mp h)]
+
+theorem meanS_eq (l : List α) (h : l ≠ []) : meanS l = some (l.sum / (l.length : α)) := by
+  unfold meanS
+  cases l with
+  | nil => exact absurd rfl h
+  | cons x xs => simp [sumS_eq_sum]
+
+theorem meanS_some {l : List α} {m : α} (h : meanS l = some m) : l ≠ [] ∧ l.sum = (l.length : α) * m := by
+  cases l with
+  | nil => simp [meanS] at h
+  | cons x xs =>
+    refine ⟨by simp, ?_⟩
+    rw [meanS_eq _ (by simp)] at h
+    have hn : ((x :: xs).length : α) ≠ 0 := by
+      simp only [List.length_cons]; positivity
+    rw [← Option.some.inj h]; field_simp
+
+/-- `Σ (x - m)² = Σ x² - 2 m Σ x + n m²` -/
+theorem sqDevSum_expand (m : α) (l : List α) :
+    sqDevSum m l = (l.map fun x => x * x).sum - 2 * m * l.sum + (l.length : α) * (m * m) := by
+  unfold sqDevSum
+  rw [sumS_eq_sum]
+  induction l with
+  | nil => simp
+  | cons x xs ih => simp only [List.map_cons, List.sum_cons, List.length_cons, ih]; push_cast; ring
+end Field
 
 end LinfaSpec.Metrics
